@@ -157,6 +157,19 @@ func c09Families(tier fw.Tier) []docFamily {
 			}
 			return d + " (8h!)\nsummary\n    1h\n\n" + dates[(i/2+7)%len(dates)] + "\n    8:00 - 9:00\n", nil, false
 		}})
+		// lastline: the final line of the text is a summary line that ends in blanks (record summary, entry summary,
+		// continuation line) or a bare value followed by blanks; with and without a final newline; LF and CRLF
+		lastLines := []string{"2021-07-01\nsummary ends in blanks  \t", "2021-07-01\n    1h ends in blanks  ", "2021-07-01\n    1h\n        continuation \t ", "2021-07-01\n    8:00 - 9:00  ", "2021-07-01\n    1h x\n        \t", "2021-07-01\n    30m  x  "}
+		fs = append(fs, docFamily{"lastline", len(lastLines) * 4, func(i int) (string, []sm.Record, bool) {
+			t := "2021/06/30 (8h!)\n    2h first record\n\n" + lastLines[i/4]
+			if i%2 == 1 {
+				t += "\n"
+			}
+			if i%4 >= 2 {
+				t = strings.ReplaceAll(t, "\n", "\r\n")
+			}
+			return t, nil, false
+		}})
 		// long documents (9 records) for the CLI leg with several CPUs (parallel parser behind `klog print`)
 		shapes := docgen.FBShapes()
 		fs = append(fs, docFamily{"long", len(shapes) * 3, func(i int) (string, []sm.Record, bool) {
@@ -195,7 +208,7 @@ func init() {
 				if text == "" {
 					continue
 				}
-				c09Text(c, f.name, i, text, f.name == "notation" || f.name == "long" || f.name == "dates" || (c.Tier == fw.Thorough && i%64 == 0) || i%256 == 0)
+				c09Text(c, f.name, i, text, f.name == "notation" || f.name == "long" || f.name == "dates" || f.name == "lastline" || (c.Tier == fw.Thorough && i%64 == 0) || i%256 == 0)
 			}
 		},
 		Replay: func(c *fw.Ctx, raw json.RawMessage) {
